@@ -120,6 +120,7 @@ structure State where
   discCancel : Bool := false
   resolveRes : Res := .none
   sockRes : Res := .none
+  sockFaulty : Bool := false       -- the socket handed over raises OSError from setsockopt / getpeername (peer reset after accept)
   transportWaiter : Bool := false   -- create_connection's waiter is done
   transportFailed : Bool := false   -- … with an OSError (the socket was closed under it)
   hello : Req := {}
@@ -144,7 +145,7 @@ inductive Pkt
 deriving DecidableEq, Repr
 
 inductive Ev
-  | callStart | resolved (ok : Bool) | sockDone (ok : Bool) | wakeStart | cancelStart
+  | callStart | resolved (ok : Bool) | sockDone (ok : Bool) | sockFault | wakeStart | cancelStart
   | callFinish | connMade | hsOk | wakeFinish | cancelFinish
   | cbStart | cbFinish
   | callDisc | wakeDisc | cancelDisc | force | cbDiscWait
@@ -233,6 +234,8 @@ def aStartDone (o : Outcome) (s : State) : State := { s with start := .done o }
 def aStartToSocket (s : State) : State := { s with resolveTimer := false, tcpTimer := true, start := .awaitSocket }
 def aStartAttach (s : State) : State :=
   { s with tcpTimer := false, sockAttached := true, sockMade := true, startT := { s.startT with exited := true } }
+/-- `self._socket = sock` when configuring the socket then fails: attached, but the phase does not complete -/
+def aSockAttachOnly (s : State) : State := { s with sockAttached := true, sockMade := true }
 def aStartFutCb (s : State) : State :=
   if s.startFut = .pending then { s with startFut := .done, startT := { s.startT with cbPending := true } } else s
 def aSockOpened (s : State) : State := { s with st := .sockOpen, start := .done .ok }
@@ -355,6 +358,10 @@ def onLost (s : State) : State :=
 
 /-! ## the connect phases -/
 
+/-- the socket was handed over (`self._socket = sock`) but configuring it raised: the phase leaves its guarded block and
+`_cleanup` closes the socket again -/
+def aSockFaultClose (s : State) : State := cleanup (aStartExit (aSockAttachOnly s))
+
 /-- leaving `async with interrupt(...)` and the `except`/`finally` of a phase with exception `ex` -/
 def failStart (s : State) (ex : Exc) : State :=
   let s := cleanup (aStartExit s)
@@ -407,7 +414,11 @@ def stepStart (s : State) : State :=
       else match s.sockRes with
         | .none => s
         | .fail => failStart s (.api .socket)
-        | .ok => startOkPath s
+        | .ok =>
+          if s.sockFaulty then
+            let s := aSockFaultClose s
+            aStartDone (.err (wrap s .os)) (aStartFutQuiet s)
+          else startOkPath s
   | _ => s
 
 /-- `_connect_hello_login` up to its await -/
@@ -492,6 +503,7 @@ def stepDisc (s : State) : State :=
 def aRefused (s : State) : State := { s with refused := s.refused + 1 }
 def aStartBegin (s : State) : State := { s with start := .awaitResolve, startFut := .pending, resolveTimer := true }
 def aResolveSet (ok : Bool) (s : State) : State := { s with resolveRes := if ok then .ok else .fail }
+def aSockFaulty (s : State) : State := { s with sockFaulty := true }
 def aSockSet (ok : Bool) (s : State) : State := { s with sockRes := if ok then .ok else .fail }
 def aUserCancelStart (s : State) : State := { s with startT := { s.startT with userCancel := true } }
 def aFinishBegin (s : State) : State := { s with finish := .awaitTransport, finishFut := .pending }
@@ -534,6 +546,7 @@ def step (s : State) : Ev → State
     else aStartBegin s
   | .resolved ok => if s.start = .awaitResolve ∧ s.resolveRes = .none then aResolveSet ok s else s
   | .sockDone ok => if s.start = .awaitSocket ∧ s.sockRes = .none then aSockSet ok s else s
+  | .sockFault => aSockFaulty s
   | .wakeStart => stepStart s
   | .cancelStart => if s.start = .awaitResolve ∨ s.start = .awaitSocket then aUserCancelStart s else s
   | .callFinish =>
